@@ -19,6 +19,7 @@ CONSTANTS
   SentP = 4
   SentN = 6
   MaxDepth = 100
+  TauNear = {}
 INVARIANT TypeOK
 INVARIANT Refinement
 CHECK_DEADLOCK FALSE
